@@ -127,6 +127,7 @@ auto withStr(Src k, const std::string& bytes, Arena& arena, F&& f) -> decltype(f
     ~Scribble() {
       memset(p, 0xEE, n + 1);
       free(p);
+      count("fault.string_source_scribbled");
     }
   } guard{scratch, n};
   switch (k) {
